@@ -53,6 +53,11 @@ pub struct ScriptS {
     pub tail: String,
     #[serde(default = "dtrue")]
     pub tail_ok: bool,
+    #[serde(default, skip_serializing_if = "is_zero")]
+    pub hint: u8,
+}
+fn is_zero(x: &u8) -> bool {
+    *x == 0
 }
 #[derive(Clone, Debug, Deserialize, Serialize)]
 pub struct StepS {
@@ -82,6 +87,7 @@ impl ScriptS {
                 .collect(),
             tail: self.tail.clone(),
             tail_ok: self.tail_ok,
+            hint: self.hint,
         }
     }
 }
